@@ -1,5 +1,5 @@
 (* C04_join (hash join), C04_pushdown on the fragment, and the tie theorem. *)
-From RV Require Export Sparql.Nodup.
+From RV Require Export Sparql.LeftJoinProofs.
 Local Open Scope N_scope.
 
 Definition graphs_nodup (ds : dataset) : Prop :=
@@ -25,17 +25,100 @@ Qed.
 Lemma uniform_single y : uniform [y].
 Proof. intros m m' [<-|[]] [<-|[]] v. tauto. Qed.
 
+Lemma NoDup_map_inj {A B} (f : A -> B) l :
+  (forall x y, In x l -> In y l -> f x = f y -> x = y) -> NoDup l -> NoDup (map f l).
+Proof.
+  intros Inj N. induction N as [|a l Na N IH]; cbn; [constructor|]. constructor.
+  - intros I. apply in_map_iff in I as [b [E Ib]]. apply Na.
+    rewrite (Inj a b); auto; [now left|now right].
+  - apply IH. intros x y Ix Iy. apply Inj; now right.
+Qed.
+
+Lemma sorted_restrict f lo m : sorted_from lo m = true -> sorted_from lo (restrict f m) = true.
+Proof.
+  revert lo. induction m as [|[w u] r IH]; intros lo S; cbn; [reflexivity|].
+  cbn in S. apply andb_true_iff in S as [A B].
+  destruct (f w); cbn.
+  - rewrite A. cbn. now apply IH.
+  - apply IH. eapply sorted_from_weaken; [|exact B].
+    intros v H. destruct lo as [l|]; [|reflexivity]. cbn in *. apply N.ltb_lt in A, H. apply N.ltb_lt. lia.
+Qed.
+
+Lemma wf_restrict f m : sol_wf m = true -> sol_wf (restrict f m) = true.
+Proof. apply sorted_restrict. Qed.
+
+Lemma ext_step_inv ds g v e m :
+  sol_wf m = true -> lookup v m = None ->
+  restrict (fun w => negb (N.eqb w v)) (ext_step ds g v e m) = m.
+Proof.
+  intros W L. apply sol_ext; [apply wf_restrict, ext_step_wf, W|exact W|].
+  intros w. rewrite lookup_restrict. unfold ext_step.
+  destruct (N.eqb w v) eqn:E; cbn.
+  - apply N.eqb_eq in E; subst. now rewrite L.
+  - destruct (expr_bu ds g m e); [|reflexivity]. rewrite L. rewrite lookup_bind, E. reflexivity.
+Qed.
+
+Lemma sub_same_dom_eq x x' :
+  sol_wf x = true -> sol_wf x' = true -> same_dom x x' -> sub_sol x' x -> x = x'.
+Proof.
+  intros W W' S Sub. symmetry. apply same_dom_ext; auto.
+  intros v. specialize (S v). tauto.
+Qed.
+
 Lemma df_sound ds p : shape p = true -> df p = true -> graphs_nodup ds ->
   forall g, NoDup g -> NoDup (eval_bu ds g p).
 Proof.
-  intros S D [Nn Ng]. induction p; cbn [shape] in S; try discriminate; cbn [df] in D; intros g0 N0; cbn [eval_bu].
-  - apply NoDup_bgp_ext; [exact N0|reflexivity].
-  - apply andb_true_iff in S as [S1 S2].
+  intros S D [Nn Ng]. induction p; cbn [shape] in S; try discriminate; cbn [df] in D; intros g0 N0.
+  - cbn [eval_bu]. apply NoDup_bgp_ext; [exact N0|reflexivity].
+  - cbn [eval_bu]. apply andb_true_iff in S as [S1 S2].
     apply andb_true_iff in D as [D U2]. apply andb_true_iff in D as [D U1]. apply andb_true_iff in D as [D1 D2].
     apply NoDup_join_lists; auto using bu_wf, un_sound.
-  - apply NoDup_filter'. auto.
-  - now apply nodup_rows_NoDup.
-  - destruct g as [t|v].
+  - (* LeftJoin *)
+    apply andb_true_iff in S as [S1 S2].
+    apply andb_true_iff in D as [D U2]. apply andb_true_iff in D as [D U1]. apply andb_true_iff in D as [D1 D2].
+    pose proof (bu_wf ds p1 S1 g0) as W1. pose proof (bu_wf ds p2 S2 g0) as W2.
+    pose proof (un_sound ds p1 S1 U1 g0) as Un1. pose proof (un_sound ds p2 S2 U2 g0) as Un2.
+    cbn [eval_bu].
+    set (B := eval_bu ds g0 p2) in *. set (A := eval_bu ds g0 p1) in *.
+    assert (PieceIn : forall x m,
+      In m (match filter (fun b => compatible x b && ebv (expr_bu ds g0 (merge x b) e)) B with
+            | [] => [x] | y0 :: ys => map (merge x) (y0 :: ys) end) ->
+      m = x \/ exists y, In y B /\ compatible x y = true /\ m = merge x y).
+    { intros x m I. destruct (filter _ B) as [|y0 ys] eqn:Fl.
+      - destruct I as [<-|[]]. now left.
+      - right. apply in_map_iff in I as [y [<- Iy]]. rewrite <- Fl in Iy.
+        apply filter_In in Iy as [Iy Cy]. apply andb_true_iff in Cy as [Cy _]. eauto. }
+    apply NoDup_flat_map; [now apply IHp1| |].
+    + intros x Ix. destruct (filter _ B) as [|y0 ys] eqn:Fl; [repeat constructor; intros []|].
+      rewrite <- Fl. apply NoDup_map_inj.
+      * intros y y' Iy Iy' E. apply filter_In in Iy as [Iy _]. apply filter_In in Iy' as [Iy' _].
+        eapply merge_inj_r; eauto.
+      * apply NoDup_filter'. now apply IHp2.
+    + intros x x' m Ix Ix' Dx I I'.
+      apply PieceIn in I. apply PieceIn in I'. apply Dx.
+      destruct I as [->|[y [Iy [C ->]]]], I' as [E|[y' [Iy' [C' E]]]].
+      * exact E.
+      * apply sub_same_dom_eq; auto. rewrite E. apply sub_sol_merge_l; auto. now rewrite compatible_sym by auto.
+      * symmetry. apply sub_same_dom_eq; auto. rewrite <- E. apply sub_sol_merge_l; auto. now rewrite compatible_sym by auto.
+      * eapply (merge_inj_l x x' y y'); eauto.
+  - cbn [eval_bu]. apply NoDup_filter'. auto.
+  - (* Minus *)
+    cbn [eval_bu]. apply andb_true_iff in S as [S1 S2]. apply NoDup_filter'. auto.
+  - (* Extend *)
+    apply andb_true_iff in D as [D Nv]. apply negb_true_iff in Nv.
+    cbn [eval_bu]. change (NoDup (map (ext_step ds g0 v e) (eval_bu ds g0 p))).
+    assert (Lv : forall m, In m (eval_bu ds g0 p) -> lookup v m = None).
+    { intros m I. destruct (lookup v m) eqn:L; [|reflexivity].
+      assert (In v (maybe p)) by (eapply maybe_sound; eauto; congruence).
+      apply memv_in in H. congruence. }
+    apply NoDup_map_inj; [|auto].
+    intros x y Ix Iy E.
+    rewrite <- (ext_step_inv ds g0 v e x), <- (ext_step_inv ds g0 v e y); auto using bu_wf.
+    * now rewrite E.
+    * eapply bu_wf; eauto.
+    * eapply bu_wf; eauto.
+  - cbn [eval_bu]. now apply nodup_rows_NoDup.
+  - cbn [eval_bu]. destruct g as [t|v].
     + destruct (existsb _ _); [|constructor]. apply IHp; auto. now apply named_graph_NoDup.
     + apply andb_true_iff in D as [D U].
       apply NoDup_flat_map.
@@ -123,19 +206,162 @@ Proof.
     change (join_ctx c []) with (@nil sol). rewrite app_nil_r. now rewrite <- E2.
 Qed.
 
-Lemma join_ctx_nil L : all_wf L -> join_ctx [] L = L.
+(* ---- helpers for Extend and Minus ---- *)
+Lemma dedup_in x L : In x (dedup L) <-> In x L.
 Proof.
-  induction L as [|m L IH]; intros W; [reflexivity|].
-  rewrite join_ctx_cons, compatible_nil_r. rewrite merge_nil_l by (apply W; now left).
-  cbn [app]. f_equal. apply IH. intros x I; apply W; now right.
+  induction L as [|y r IH]; cbn; [tauto|]. split.
+  - intros [->|I]; [now left|]. apply filter_In in I as [I _]. right. now apply IH.
+  - intros [->|I]; [now left|].
+    destruct (sol_eqb y x) eqn:E; [apply sol_eqb_eq in E; now left|].
+    right. apply filter_In. split; [now apply IH|]. now rewrite E.
 Qed.
+
+Lemma dedup_nodup L : NoDup (dedup L).
+Proof.
+  induction L as [|y r IH]; cbn; [constructor|]. constructor.
+  - intros I. apply filter_In in I as [_ I]. rewrite (proj2 (sol_eqb_eq y y) eq_refl) in I. discriminate.
+  - now apply NoDup_filter'.
+Qed.
+
+Lemma dedup_perm A B : Permutation A B -> Permutation (dedup A) (dedup B).
+Proof.
+  intros P. apply NoDup_Permutation; try apply dedup_nodup.
+  intros x. rewrite !dedup_in. split; apply Permutation_in; [exact P|now symmetry].
+Qed.
+
+
+Lemma forallb_in_iff {A} (f : A -> bool) l l' :
+  (forall x, In x l <-> In x l') -> forallb f l = forallb f l'.
+Proof.
+  intros H. destruct (forallb f l) eqn:E1, (forallb f l') eqn:E2; try reflexivity.
+  - rewrite forallb_forall in E1. assert (forallb f l' = true) by (apply forallb_forall; intros x I; apply E1, H, I). congruence.
+  - rewrite forallb_forall in E2. assert (forallb f l = true) by (apply forallb_forall; intros x I; apply E2, H, I). congruence.
+Qed.
+
+Lemma filter_ext_in' {A} (f g : A -> bool) l : (forall x, In x l -> f x = g x) -> filter f l = filter g l.
+Proof.
+  induction l as [|a l IH]; intros H; cbn; [reflexivity|].
+  rewrite (H a) by now left. rewrite IH; [reflexivity|]. intros; apply H; now right.
+Qed.
+
+Lemma map_join_ctx c (ftd fbu : sol -> sol) L :
+  (forall m, In m L -> compatible (fbu m) c = compatible m c
+                       /\ (compatible m c = true -> ftd (merge c m) = merge c (fbu m))) ->
+  map ftd (join_ctx c L) = join_ctx c (map fbu L).
+Proof.
+  induction L as [|m L IH]; intros H; [reflexivity|].
+  cbn [map]. rewrite !join_ctx_cons, map_app, IH by (intros; apply H; now right).
+  destruct (H m (or_introl eq_refl)) as [E1 E2]. rewrite E1.
+  destruct (compatible m c); [|reflexivity]. cbn. now rewrite E2.
+Qed.
+
+Lemma maybe_allvars p : forall v, In v (maybe p) -> In v (allvars p).
+Proof.
+  induction p; cbn [maybe allvars]; intros w I; auto.
+  - apply in_app_or in I as [I|I]; apply in_or_app; auto.
+  - apply in_app_or in I as [I|I]; apply in_or_app; [left; auto|right; apply in_or_app; left; auto].
+  - apply in_or_app. right. auto.
+  - apply in_app_or in I as [I|I]; apply in_or_app; auto.
+  - apply in_or_app. left. auto.
+  - destruct I as [->|I]; [now left|right]. apply in_or_app. right. auto.
+  - unfold inter in I. apply filter_In in I as [I _]. apply in_or_app. right. auto.
+  - destruct g as [t|x]; [auto|]. destruct I as [->|I]; [now left|right; auto].
+Qed.
+
+Lemma disjoint_dom_false x y v :
+  lookup v x <> None -> lookup v y <> None -> disjoint_dom x y = false.
+Proof.
+  intros Hx Hy. destruct (disjoint_dom x y) eqn:E; [|reflexivity].
+  unfold disjoint_dom in E. rewrite forallb_forall in E.
+  destruct (lookup v x) as [t|] eqn:L; [|congruence]. apply lookup_in in L.
+  specialize (E _ L). cbn in E. destruct (lookup v y); [discriminate|congruence].
+Qed.
+
+(* two context-extended solutions are compatible iff the originals are *)
+Lemma compat_ctx_both c x y :
+  sol_wf c = true -> sol_wf x = true -> sol_wf y = true ->
+  compat_prop x c -> compat_prop y c ->
+  (compat_prop (merge c x) (merge c y) <-> compat_prop x y).
+Proof.
+  intros Wc Wx Wy Cx Cy.
+  rewrite (compat_merge_iff (merge c x) c y Wc Wy (compat_prop_sym _ _ Cy)).
+  split.
+  - intros [_ H]. apply compat_prop_sym in H. apply compat_prop_sym.
+    apply (compat_merge_iff y c x Wc Wx (compat_prop_sym _ _ Cx)) in H. apply H.
+  - intros H. split.
+    + intros v t u L1 L2. apply (sub_sol_merge_l c x Wx Wc) in L2; [congruence|].
+      now apply (compatible_spec _ _ Wx).
+    + apply compat_prop_sym. apply (compat_merge_iff y c x Wc Wx (compat_prop_sym _ _ Cx)).
+      split; [exact Cy|now apply compat_prop_sym].
+Qed.
+
+(* ---- helpers for OPTIONAL ---- *)
+Definition is_true_const (e : expr) : bool := match e with ECon t => N.eqb t 21 | _ => false end.
+Definition lj_expr_ok (a b : alg) (e : expr) : bool :=
+  is_true_const e || (expr_safe e && subsetv (evars e) (cert a ++ cert b)).
+
+Lemma lj_expr_agree ds g a b e m1 full m2 :
+  lj_expr_ok a b e = true ->
+  (forall w, In w (evars e) -> lookup w m1 = lookup w m2) ->
+  (forall w, In w (cert a ++ cert b) -> lookup w m2 <> None) ->
+  ebv (expr_td ds g m1 full e) = ebv (expr_bu ds g m2 e).
+Proof.
+  intros Ok H Bd. unfold lj_expr_ok in Ok. apply orb_true_iff in Ok as [T|S].
+  - destruct e; try discriminate. reflexivity.
+  - apply andb_true_iff in S as [S Sub]. rewrite subsetv_in in Sub.
+    destruct (expr_safe_agree ds g full e m1 m2 S) as [b0 [T B]].
+    + intros w Iw. split; [now apply H|apply Bd, Sub, Iw].
+    + now rewrite T, B.
+Qed.
+
+Lemma remember_eq c x vs :
+  sol_wf c = true -> sol_wf x = true ->
+  (forall w, lookup w x <> None -> In w vs) ->
+  (forall w, In w vs -> lookup w c <> None -> lookup w x <> None) ->
+  remember (merge c x) vs = x.
+Proof.
+  intros Wc Wx Hx Hc. unfold remember. apply sol_ext; [apply wf_restrict, wf_merge, Wc|exact Wx|].
+  intros w. rewrite lookup_restrict, lookup_merge by exact Wx.
+  destruct (lookup w x) as [t|] eqn:Lx.
+  - rewrite (proj2 (memv_in w vs)); [reflexivity|]. apply Hx. congruence.
+  - destruct (memv w vs) eqn:M; [|reflexivity]. apply memv_in in M.
+    destruct (lookup w c) eqn:Lc; [|reflexivity]. exfalso. apply (Hc w M); congruence.
+Qed.
+
 (* ---- the fragment ---- *)
 Definition filter_ok (nis : bool) (fv : option (list var)) (e : expr) (q : alg) : bool :=
   expr_safe e && subsetv (evars e) (cert q)
   && (nis || match fv with Some l => subsetv (evars e) l | None => false end).
 
+(* BIND: the target is new (finding F-C04-1), the expression is an atom or an
+   error-free boolean expression over variables its pattern certainly binds *)
+Definition extend_ok (pushed : list var) (xv : option (list var)) (q : alg) (v : var) (e : expr) : bool :=
+  negb (memv v pushed) && negb (memv v (maybe q))
+  && (atom e || expr_safe e) && subsetv (evars e) (cert q)
+  && match xv with Some l => subsetv (evars e) l | None => false end.
+
+(* MINUS: the negation of the trigger of finding F-C04-2 *)
+Definition minus_ok (pushed : list var) (a b : alg) : bool :=
+  negb (nonempty pushed)
+  || (subsetv (inter (allvars b) pushed) (cert a) && nonempty (inter (cert a) (cert b))).
+
+(* OPTIONAL: the negations of the triggers of findings F-C04-5 and F-C04-6 (F-C04-4
+   cannot occur: no sub-SELECT in the fragment), over an absent filter or an
+   error-free one whose variables the two sides certainly bind *)
+Definition leftjoin_ok (pushed : list var) (pv : option (list var)) (a b : alg) (e : expr) : bool :=
+  lj_expr_ok a b e && negb (nonempty (inter (evars e) pushed))
+  && match pv with
+     | Some vs => subsetv (maybe a) vs
+                  && (negb (nonempty pushed) || (subsetv (inter vs pushed) (cert a) && nonempty (cert a)))
+     | None => negb (nonempty pushed)
+     end.
+
 Fixpoint frag (names : list term) (pushed : list var) (p : alg) : bool :=
   match p with
+  | LeftJoin pv a b e =>
+      leftjoin_ok pushed pv a b e && frag names pushed a && frag names (pushed ++ maybe a) b
+  | Minus a b => frag names pushed a && frag names pushed b && minus_ok pushed a b
+  | Extend xv q v e => extend_ok pushed xv q v e && frag names pushed q
   | BGP _ => true
   | Values rows => forallb sol_wf rows
   | Union a b => frag names pushed a && frag names pushed b
@@ -154,8 +380,13 @@ Proof.
   - reflexivity.
   - apply andb_true_iff in F as [F _]. apply andb_true_iff in F as [F1 F2].
     rewrite (IHp1 _ F1), (IHp2 _ F2). reflexivity.
+  - apply andb_true_iff in F as [F F2]. apply andb_true_iff in F as [_ F1].
+    rewrite (IHp1 _ F1), (IHp2 _ F2). reflexivity.
   - apply andb_true_iff in F as [_ F]. eauto.
   - apply andb_true_iff in F as [F1 F2]. rewrite (IHp1 _ F1), (IHp2 _ F2). reflexivity.
+  - apply andb_true_iff in F as [F _]. apply andb_true_iff in F as [F1 F2].
+    rewrite (IHp1 _ F1), (IHp2 _ F2). reflexivity.
+  - apply andb_true_iff in F as [_ F]. eauto.
   - exact F.
   - destruct g; apply andb_true_iff in F as [_ F]; eauto.
 Qed.
@@ -215,6 +446,102 @@ Section PD.
         rewrite (dedup_NoDup _ N2').
         rewrite <- (hash_join_lists c _ _ Wc (bu_wf ds p1 S1 g0) (bu_wf ds p2 S2 g0)).
         etransitivity; [apply join_lists_perm_l; exact P1|apply join_lists_perm_r; exact P2].
+    - (* LeftJoin *)
+      apply andb_true_iff in F as [F12 F2]. apply andb_true_iff in F12 as [Lo F1].
+      unfold leftjoin_ok in Lo. apply andb_true_iff in Lo as [Lo Pv]. apply andb_true_iff in Lo as [Eo Ep].
+      apply negb_true_iff in Ep.
+      assert (Enp : forall w, In w (evars e) -> lookup w c = None).
+      { intros w Iw. destruct (lookup w c) eqn:L; [|reflexivity]. exfalso.
+        assert (In w (inter (evars e) pushed)).
+        { unfold inter. apply filter_In. split; [exact Iw|]. apply memv_in, Dc. congruence. }
+        destruct (inter (evars e) pushed); [destruct H|discriminate]. }
+      pose proof (frag_shape _ _ _ F1) as S1. pose proof (frag_shape _ _ _ F2) as S2.
+      cbn [eval_td eval_bu].
+      set (A := eval_bu ds g0 p1). set (B := eval_bu ds g0 p2).
+      assert (WA : all_wf A) by (apply bu_wf, S1). assert (WB : all_wf B) by (apply bu_wf, S2).
+      rewrite (Permutation_flat_map _ (IHp1 pushed F1 g0 c Ng Wc Dc)). fold A.
+      rewrite join_ctx_flat_map.
+      change (join_ctx c A) with (flat_map (fun m => if compatible m c then [merge c m] else []) A).
+      rewrite flat_map_flat_map. apply flat_map_perm_pointwise. intros x Ix.
+      assert (Wx := WA x Ix).
+      assert (Dx : dom_in x (pushed ++ maybe p1)).
+      { intros w Hw. apply in_or_app. right. eapply maybe_sound; eauto. }
+      destruct (compatible x c) eqn:Cx.
+      + cbn [flat_map]. rewrite app_nil_r.
+        assert (Sa : sub_sol c (merge c x)) by (apply sub_sol_merge_l; assumption).
+        assert (Wa : sol_wf (merge c x) = true) by (apply wf_merge, Wc).
+        assert (Da : dom_in (merge c x) (pushed ++ maybe p1)).
+        { intros w Hw. rewrite lookup_merge in Hw by exact Wx. apply in_or_app.
+          destruct (lookup w x) eqn:L1; [right; eapply maybe_sound; eauto; congruence|left; now apply Dc]. }
+        rewrite (thaw_ext c _ Sa).
+        set (fe := fun y => ebv (expr_bu ds g0 (merge x y) e)).
+        assert (Bd : forall y, In y B -> compatible x y = true ->
+                     forall w, In w (cert p1 ++ cert p2) -> lookup w (merge x y) <> None).
+        { intros y Iy Cy w Iw. rewrite lookup_merge by (apply WB, Iy).
+          apply in_app_or in Iw as [Iw|Iw].
+          - pose proof (cert_sound ds p1 S1 g0 x w Ix Iw). destruct (lookup w y); [discriminate|exact H].
+          - pose proof (cert_sound ds p2 S2 g0 y w Iy Iw). destruct (lookup w y); [discriminate|congruence]. }
+        assert (F1' : forall y, In y B -> compatible y (merge c x) = true ->
+                  ebv (expr_td ds g0 (forget (merge (merge c x) y) c None) (merge (merge c x) y) e) = fe y).
+        { intros y Iy Cy. assert (Wy := WB y Iy).
+          assert (Cxy : compatible x y = true).
+          { apply (compatible_spec _ _ Wx). apply compat_prop_sym.
+            apply (compatible_spec _ _ Wy) in Cy.
+            apply (compat_merge_iff y c x Wc Wx) in Cy; [apply Cy|].
+            apply compat_prop_sym. now apply (compatible_spec _ _ Wx). }
+          apply (lj_expr_agree ds g0 p1 p2 e _ _ _ Eo); [|now apply Bd].
+          intros w Iw. unfold forget. rewrite lookup_restrict. rewrite (Enp w Iw). cbn.
+          rewrite !lookup_merge by assumption. rewrite (Enp w Iw).
+          destruct (lookup w y); [reflexivity|]. destruct (lookup w x); reflexivity. }
+        assert (F2' : forall y, In y B -> compatible y x = true ->
+                  ebv (expr_td ds g0 (merge x y) (merge x y) e) = fe y).
+        { intros y Iy Cy. apply (lj_expr_agree ds g0 p1 p2 e _ _ _ Eo); [reflexivity|].
+          apply Bd; auto. now rewrite compatible_sym by auto. }
+        destruct p1vars as [vs|].
+        * (* the second evaluation under remember(p1._vars) *)
+          apply andb_true_iff in Pv as [Mv Pp]. rewrite subsetv_in in Mv.
+          assert (Rx : thaw c (remember (merge c x) vs) = x).
+          { rewrite remember_eq; auto.
+            - apply orb_true_iff in Pp as [E|Pp].
+              + assert (pushed = []) by (destruct pushed; [reflexivity|discriminate]). subst pushed.
+                rewrite (dom_in_nil c Dc). now destruct x.
+              + apply andb_true_iff in Pp as [_ Ne].
+                destruct (cert p1) as [|w0 r0] eqn:Ec; [discriminate|].
+                pose proof (cert_sound ds p1 S1 g0 x w0 Ix) as Nw. rewrite Ec in Nw. specialize (Nw (or_introl eq_refl)).
+                destruct x; [cbn in Nw; congruence|reflexivity].
+            - intros w Hw. apply Mv. apply (maybe_sound ds p1 S1 g0 x w Ix Hw).
+            - intros w Iw Hc. apply orb_true_iff in Pp as [E|Pp].
+              + assert (pushed = []) by (destruct pushed; [reflexivity|discriminate]). subst pushed.
+                rewrite (dom_in_nil c Dc) in Hc. cbn in Hc. congruence.
+              + apply andb_true_iff in Pp as [Sv _]. rewrite subsetv_in in Sv.
+                apply (cert_sound ds p1 S1 g0 x w Ix). apply Sv. unfold inter. apply filter_In. split; [exact Iw|].
+                apply memv_in, Dc, Hc. }
+          rewrite Rx.
+          apply (lj_piece c x B Wc Wx WB Cx fe _ (eval_td ds g0 x p2) _ _ (Some vs)); auto.
+          -- apply (IHp2 (pushed ++ maybe p1) F2 g0 (merge c x) Ng Wa Da).
+          -- discriminate.
+          -- intros _. apply (IHp2 (pushed ++ maybe p1) F2 g0 x Ng Wx Dx).
+        * apply (lj_piece c x B Wc Wx WB Cx fe _ [] _ (fun b => ebv (expr_td ds g0 b b e)) None); auto.
+          -- apply (IHp2 (pushed ++ maybe p1) F2 g0 (merge c x) Ng Wa Da).
+          -- intros _. apply negb_true_iff in Pv.
+             assert (pushed = []) by (destruct pushed; [reflexivity|discriminate]). subst pushed.
+             apply (dom_in_nil c Dc).
+          -- intros N. now destruct N.
+      + (* the left solution is incompatible with the context: so is all it yields *)
+        cbn [flat_map]. symmetry. apply Permutation_refl'. apply join_ctx_incompat. intros m Im.
+        assert (Sm : sub_sol x m).
+        { destruct (filter _ B) as [|y0 ys] eqn:Fl.
+          - destruct Im as [<-|[]]. apply sub_sol_refl.
+          - apply in_map_iff in Im as [y [<- Iy]]. rewrite <- Fl in Iy. apply filter_In in Iy as [Iy Cy].
+            apply andb_true_iff in Cy as [Cy _]. apply sub_sol_merge_l; auto.
+            now rewrite compatible_sym by auto. }
+        assert (Wm : sol_wf m = true).
+        { destruct (filter _ B) as [|y0 ys]; [destruct Im as [<-|[]]; exact Wx|].
+          apply in_map_iff in Im as [y [<- _]]. apply wf_merge, Wx. }
+        destruct (compatible m c) eqn:Cm; [|reflexivity].
+        apply (compatible_spec _ _ Wm) in Cm.
+        assert (compat_prop x c) by (eapply compat_sub_l; eauto).
+        apply (compatible_spec _ _ Wx) in H. congruence.
     - (* Filter *)
       apply andb_true_iff in F as [FO F]. unfold filter_ok in FO.
       apply andb_true_iff in FO as [FO Fv]. apply andb_true_iff in FO as [Se Ce].
@@ -236,6 +563,132 @@ Section PD.
         * rewrite T, B. reflexivity.
     - (* Union *)
       apply andb_true_iff in F as [F1 F2]. apply td_union; eauto.
+    - (* Minus *)
+      apply andb_true_iff in F as [F12 Mo]. apply andb_true_iff in F12 as [F1 F2].
+      pose proof (frag_shape _ _ _ F1) as S1. pose proof (frag_shape _ _ _ F2) as S2.
+      pose proof (IHp1 pushed F1 g0 c Ng Wc Dc) as P1.
+      pose proof (IHp2 pushed F2 g0 c Ng Wc Dc) as P2.
+      cbn [eval_td eval_bu].
+      set (gp := fun x y : sol => negb (compatible x y) || disjoint_dom x y).
+      set (A := eval_bu ds g0 p1) in *. set (B := eval_bu ds g0 p2) in *.
+      assert (WA : all_wf A) by (apply bu_wf, S1). assert (WB : all_wf B) by (apply bu_wf, S2).
+      transitivity (filter (fun x => forallb (gp x) (join_ctx c B)) (join_ctx c A)).
+      + rewrite (filter_ext_in' _ (fun x => forallb (gp x) (join_ctx c B))).
+        * apply Permutation_filter'. exact P1.
+        * intros x _. apply forallb_in_iff. intros y. rewrite dedup_in.
+          split; apply Permutation_in; [exact P2|symmetry; exact P2].
+      + apply Permutation_refl'. apply filter_join_ctx. intros x Ix Cx. cbv beta.
+        assert (Wx := WA x Ix). pose proof (proj1 (compatible_spec _ _ Wx) Cx) as Px.
+        unfold minus_ok in Mo. apply orb_true_iff in Mo as [E|Mo].
+        * assert (pushed = []) by (destruct pushed; [reflexivity|discriminate]). subst pushed.
+          rewrite (dom_in_nil c Dc), join_ctx_nil, merge_nil_l; auto.
+        * apply andb_true_iff in Mo as [Wc' V0]. rewrite subsetv_in in Wc'.
+          destruct (inter (cert p1) (cert p2)) as [|v0 rest] eqn:Iv; [discriminate|].
+          assert (I0 : In v0 (inter (cert p1) (cert p2))) by (rewrite Iv; now left).
+          unfold inter in I0. apply filter_In in I0 as [I1 I2]. apply memv_in in I2.
+          assert (Wxc : sol_wf (merge c x) = true) by (apply wf_merge, Wc).
+          assert (X0 : lookup v0 x <> None) by exact (cert_sound ds p1 S1 g0 x v0 Ix I1).
+          assert (X0' : lookup v0 (merge c x) <> None).
+          { rewrite lookup_merge by exact Wx. destruct (lookup v0 x); [discriminate|congruence]. }
+          (* both sides: no compatible partner *)
+          assert (L : forallb (gp (merge c x)) (join_ctx c B) = true <->
+                      (forall y, In y B -> compatible y c = true -> compatible (merge c x) (merge c y) = false)).
+          { rewrite forallb_forall. split.
+            - intros H y Iy Cy. specialize (H (merge c y)).
+              assert (In (merge c y) (join_ctx c B)).
+              { unfold join_ctx. apply in_flat_map. exists y. split; [exact Iy|]. rewrite Cy. now left. }
+              specialize (H H0). unfold gp in H. apply orb_true_iff in H as [H|H]; [now apply negb_true_iff in H|].
+              rewrite (disjoint_dom_false _ _ v0) in H; [discriminate|exact X0'|].
+              rewrite lookup_merge by (apply WB, Iy).
+              pose proof (cert_sound ds p2 S2 g0 y v0 Iy I2). destruct (lookup v0 y); [discriminate|congruence].
+            - intros H y' Iy'. apply in_join_ctx in Iy' as [y [Iy [Cy ->]]].
+              unfold gp. rewrite (H y Iy Cy). reflexivity. }
+          assert (R : forallb (gp x) B = true <-> (forall y, In y B -> compatible x y = false)).
+          { rewrite forallb_forall. split.
+            - intros H y Iy. specialize (H y Iy). unfold gp in H.
+              apply orb_true_iff in H as [H|H]; [now apply negb_true_iff in H|].
+              rewrite (disjoint_dom_false _ _ v0) in H; [discriminate|exact X0|].
+              exact (cert_sound ds p2 S2 g0 y v0 Iy I2).
+            - intros H y Iy. unfold gp. rewrite (H y Iy). reflexivity. }
+          change (forallb (fun y : sol => negb (compatible x y) || disjoint_dom x y) B) with (forallb (gp x) B).
+          destruct (forallb (gp (merge c x)) (join_ctx c B)) eqn:E1, (forallb (gp x) B) eqn:E2; try reflexivity.
+          -- (* top-down keeps x, bottom-up removes it: some y ~ x; then y ~ c *)
+             exfalso. assert (Hn : ~ (forall y, In y B -> compatible x y = false)).
+             { intros Hh. apply R in Hh. congruence. }
+             apply Hn. intros y Iy. destruct (compatible x y) eqn:Cxy; [|reflexivity]. exfalso.
+             assert (Wy := WB y Iy). pose proof (proj1 (compatible_spec _ _ Wx) Cxy) as Pxy.
+             assert (Pyc : compat_prop y c).
+             { intros v t u Ly Lc.
+               assert (In v (cert p1)).
+               { apply Wc'. unfold inter. apply filter_In. split.
+                 - apply maybe_allvars. apply (maybe_sound ds p2 S2 g0 y v Iy). congruence.
+                 - apply memv_in, Dc. congruence. }
+               pose proof (cert_sound ds p1 S1 g0 x v Ix H) as Nx.
+               destruct (lookup v x) as [s|] eqn:Lx; [|congruence].
+               rewrite <- (Pxy v s t Lx Ly). eapply Px; eauto. }
+             pose proof (proj1 L eq_refl y Iy (proj2 (compatible_spec _ _ Wy) Pyc)) as Hf.
+             assert (compat_prop (merge c x) (merge c y)) by (apply compat_ctx_both; auto).
+             apply (compatible_spec _ _ Wxc) in H. congruence.
+          -- (* bottom-up keeps x: then top-down keeps it too *)
+             exfalso. assert (Hh : forall y, In y B -> compatible y c = true -> compatible (merge c x) (merge c y) = false).
+             { intros y Iy Cy. destruct (compatible (merge c x) (merge c y)) eqn:Cc; [|reflexivity].
+               exfalso. assert (Wy := WB y Iy).
+               apply (compatible_spec _ _ Wxc) in Cc.
+               apply compat_ctx_both in Cc; auto; [|now apply (compatible_spec _ _ Wy)].
+               apply (compatible_spec _ _ Wx) in Cc. rewrite (proj1 R eq_refl y Iy) in Cc. discriminate. }
+             apply L in Hh. discriminate.
+    - (* Extend *)
+      apply andb_true_iff in F as [Eo F]. unfold extend_ok in Eo.
+      apply andb_true_iff in Eo as [Eo Xv]. apply andb_true_iff in Eo as [Eo Ce].
+      apply andb_true_iff in Eo as [Eo Se]. apply andb_true_iff in Eo as [Vp Vq].
+      apply negb_true_iff in Vp, Vq.
+      destruct xvars as [xv|]; [|discriminate]. rewrite subsetv_in in Ce, Xv.
+      pose proof (frag_shape _ _ _ F) as S. cbn [eval_td eval_bu].
+      rewrite (IHp pushed F g0 c Ng Wc Dc).
+      apply Permutation_refl'.
+      change (map (fun s => match expr_td ds g0 (forget s c (Some xv)) s e with
+                            | Some t => bind v t s | None => s end) (join_ctx c (eval_bu ds g0 p))
+              = join_ctx c (map (ext_step ds g0 v e) (eval_bu ds g0 p))).
+      apply map_join_ctx. intros m I. assert (Wm := bu_wf ds p S g0 m I).
+      assert (Lvm : lookup v m = None).
+      { destruct (lookup v m) eqn:L; [|reflexivity].
+        assert (In v (maybe p)) by (eapply maybe_sound; eauto; congruence). apply memv_in in H. congruence. }
+      assert (Lvc : lookup v c = None).
+      { destruct (lookup v c) eqn:L; [|reflexivity].
+        assert (In v pushed) by (apply Dc; congruence). apply memv_in in H. congruence. }
+      (* the value of the expression *)
+      assert (Ev : exists t, (forall s full, (forall w, In w (evars e) -> lookup w s = lookup w m) ->
+                                expr_td ds g0 s full e = Some t) /\ expr_bu ds g0 m e = Some t).
+      { assert (Bd : forall w, In w (evars e) -> lookup w m <> None).
+        { intros w Iw. eapply cert_sound; eauto. }
+        apply orb_true_iff in Se as [At|Sf].
+        - destruct e; try discriminate.
+          + destruct (lookup v0 m) as [t|] eqn:L; [|exfalso; apply (Bd v0); [now left|exact L]].
+            exists t. split; [|cbn; exact L]. intros s full H. cbn. rewrite H; [exact L|now left].
+          + exists t. split; [intros; reflexivity|reflexivity].
+        - destruct (expr_safe_agree ds g0 m e m m Sf) as [b [_ B]]; [intros w Iw; split; [reflexivity|now apply Bd]|].
+          exists (t_bool b). split; [|exact B]. intros s full H.
+          destruct (expr_safe_agree ds g0 full e s m Sf) as [b' [T' B']].
+          { intros w Iw. split; [now apply H|now apply Bd]. }
+          congruence. }
+      destruct Ev as [t [Etd Ebu]].
+      assert (Fm : ext_step ds g0 v e m = bind v t m) by (unfold ext_step; now rewrite Ebu, Lvm).
+      rewrite Fm. split.
+      + destruct (compatible m c) eqn:Cm.
+        * apply (compatible_spec _ _ (wf_bind v t m Wm)). apply compat_bind_intro; auto.
+          -- now apply (compatible_spec _ _ Wm).
+          -- intros w H. congruence.
+        * destruct (compatible (bind v t m) c) eqn:Cb; [|reflexivity].
+          apply (compatible_spec _ _ (wf_bind v t m Wm)) in Cb.
+          assert (compat_prop m c).
+          { eapply compat_sub_l; [|exact Cb]. intros w u H. rewrite lookup_bind.
+            destruct (N.eqb w v) eqn:E; [apply N.eqb_eq in E; subst; congruence|exact H]. }
+          apply (compatible_spec _ _ Wm) in H. congruence.
+      + intros Cm. rewrite Etd; [symmetry; now apply merge_bind_comm|].
+        intros w Iw. unfold forget. rewrite lookup_restrict.
+        rewrite (proj2 (memv_in w xv) (Xv w Iw)). cbn.
+        rewrite lookup_merge by exact Wm.
+        pose proof (cert_sound ds p S g0 m w I (Ce w Iw)). destruct (lookup w m); [reflexivity|congruence].
     - (* Values *)
       rewrite td_values. reflexivity.
     - (* Graph *)
